@@ -769,9 +769,15 @@ func knownFalseAtD(v ssa.Value, b *ssa.BasicBlock, depth int) bool {
 		}
 	}
 	// a result merged from several returns: every edge is known false where it comes from
-	if ph, ok := v.(*ssa.Phi); ok && ph.Block() == b {
+	if ph, ok := v.(*ssa.Phi); ok {
+		// every value that can arrive is false where it comes from
 		for k, e := range ph.Edges {
-			if !knownFalseAtD(e, b.Preds[k], depth+1) {
+			pred := ph.Block().Preds[k]
+			// the edge itself may be the false branch of a test of that very value
+			if iff, ok := pred.Instrs[len(pred.Instrs)-1].(*ssa.If); ok && iff.Cond == e && len(pred.Succs) == 2 && pred.Succs[1] == ph.Block() && pred.Succs[0] != ph.Block() {
+				continue
+			}
+			if !knownFalseAtD(e, pred, depth+1) {
 				return false
 			}
 		}
